@@ -51,13 +51,14 @@ type Monitor interface {
 }
 
 type Scenario struct {
-	D        *Desc
-	Alpha    []Sym
-	axisOrd  map[int]int       // alphabet index -> axis ordinal
-	axisDesc map[int]*AxisDesc // alphabet index -> description in the DEFAULT mapping holding it
-	NewMons  func(s *Scenario, w *worker) []Monitor
-	Repeat   bool // offer key-repeat probes
-	MaxState int
+	D          *Desc
+	Alpha      []Sym
+	axisOrd    map[int]int       // alphabet index -> axis ordinal
+	axisDesc   map[int]*AxisDesc // alphabet index -> description in the DEFAULT mapping holding it
+	NewMons    func(s *Scenario, w *worker) []Monitor
+	Repeat     bool // offer key-repeat probes
+	BeyondExit bool // keep exploring after the exit signal was raised (sequence keys released and completed again)
+	MaxState   int
 }
 
 type node struct {
@@ -393,7 +394,7 @@ func (e *Explorer) expand(w *worker, n *node, ev Event, depth int32) *node {
 	post, drv, swallowed := e.refStep(n.ref, n.drv, ev)
 	child.ref, child.drv = post, drv
 	child.dump = device.VerifDump(child.dev)
-	child.term = swallowed || nsig > 0
+	child.term = (swallowed || nsig > 0) && !s.BeyondExit // the application ends after the signal; C14 looks at what the device does meanwhile too
 	child.mons = make([]Monitor, len(n.mons))
 	violated := false
 	ctx := &StepCtx{S: s, Ev: ev, Sym: sym, Pre: n.ref, Post: post, PreDrv: n.drv, PostDrv: drv, Msgs: msgs, Sigs: nsig,
